@@ -13,7 +13,14 @@ Lean re-checks the decidable obligation `check prog = linC|antiC|linR` on each; 
   4. random scalar programs executed by the Lean semantics `run` versus an independent Python evaluation, and the
      checker's verdict against the numerical behaviour of those programs (soundness seen at run time),
   5. random JAX functions (linear and non-linear building blocks) traced, translated and judged by the Lean checker
-     versus their numerical linearity (the trusted primitive table exercised in both directions).
+     versus their numerical linearity (the trusted primitive table exercised in both directions),
+  6. the trusted primitive table entry by entry (harness/jaxpr_table.py): the class fact of every primitive instance
+     (static parameters, shapes, constant index / predicate operands) is tested on the JAX primitive itself - hand-made
+     coverage functions with adversarial parameters, the instances of the operator programs of this run (in situ), and
+     falsified entries as negative controls,
+  7. translator fidelity: translated programs executed equation by equation with the real JAX primitives
+     (`jaxpr_table.ir_eval`) against the operator they were translated from - inlining, constant folding, unrolling of
+     scan / while / cond, pmap boundaries are exercised, not trusted.
 `search()` looks for a concrete failing (x, y, a, b) on the real operator of a broken obligation.
 """
 
@@ -78,6 +85,8 @@ ASSUMPTIONS = [
 ]
 
 PER_CLASS_QUICK = 4
+FIDELITY_SHARE_QUICK = 0.08  # share of the (distinct) translated programs executed through the IR in the quick tier
+FIDELITY_SHARE_THOROUGH = 0.2
 NBUCKETS_QUICK = 8
 NBUCKETS_THOROUGH = 16
 
@@ -86,6 +95,7 @@ _STATE = {}
 KNOWN_CROP = "crop-adj-not-traceable"
 KNOWN_PAD = "pad-nonlinear-options"
 KNOWN_JAC = "jacobian-include-eval-affine"
+KNOWN_SUM = ops.KNOWN_SUM_INITIAL
 
 
 # ---------------------------------------------------------------------------------------------------------------
@@ -105,6 +115,8 @@ def _rand_leaf(rng, shape, dt, mode):
         a = -np.abs(a.real) - (1j * np.abs(a.imag) if cplx else 0) - 0.125
     elif mode == "large":
         a = a * 1024.0
+    elif mode == "tiny":  # magnitudes far below any plausible threshold ("flush small values", eps-regularised divisions)
+        a = a * (2.0 ** -120 if np.dtype(dt).itemsize >= (16 if cplx else 8) else 2.0 ** -100)
     elif mode == "basis":
         b = np.zeros(int(np.prod(shape)) if len(shape) else 1, dtype=a.dtype)
         if b.size:
@@ -136,8 +148,8 @@ def _apply(fn, shp, leaves):
     return ops.unpack(fn(ops.pack(shp, [jnp.asarray(l) for l in leaves])))
 
 
-def _lin_defect(lhs, rhs, nan_ok=False):
-    """max over leaves of |lhs-rhs| / (1 + max|lhs|,|rhs|)"""
+def _lin_defect(lhs, rhs, nan_ok=False, relative=False):
+    """max over leaves of |lhs-rhs| / (1 + max|lhs|,|rhs|)   (relative=True: / max|lhs|,|rhs| - for tiny magnitudes)"""
     worst = 0.0
     for l, r in zip(lhs, rhs):
         l = np.asarray(l)
@@ -152,7 +164,10 @@ def _lin_defect(lhs, rhs, nan_ok=False):
             if not np.array_equal(fl, fr):
                 return float("inf")
             l, r = np.where(fl, l, 0), np.where(fr, r, 0)
-        sc = 1.0 + max(float(np.max(np.abs(l))), float(np.max(np.abs(r))))
+        sc = max(float(np.max(np.abs(l))), float(np.max(np.abs(r))))
+        if relative and sc == 0.0:
+            continue
+        sc = sc if relative else 1.0 + sc
         d = float(np.max(np.abs(l.astype(np.complex128) - r.astype(np.complex128)))) / sc
         if not np.isfinite(d):
             return float("inf")
@@ -175,7 +190,7 @@ def probe(fn, shp, dt, rng, field, mode="random"):
     Ax, Ay, Az = _apply(fn, shp, x), _apply(fn, shp, y), _apply(fn, shp, z)
     rhs = [a * p + b * q for p, q in zip(Ax, Ay)]
     tol = max(_tol(dt), _tol(Ax[0].dtype) if Ax and Ax[0].size else 0.0)
-    d = _lin_defect(Az, rhs, nan_ok=(mode == "nan"))
+    d = _lin_defect(Az, rhs, nan_ok=(mode == "nan"), relative=(mode == "tiny"))
     nontrivial = any(np.any(np.asarray(p) != 0) for p in Ax)
 
     def enc(ls):
@@ -226,7 +241,7 @@ def oracle_for(rng):
     def oracle(case):
         A, fn, shp, dt = _view_fn(case["cls"], case["config"], case["view"])
         fld = tr.field_of(A)
-        for mode in ("random", "negative", "large", "basis", "cancel", "ones", "random", "random", "nan"):
+        for mode in ("random", "negative", "large", "basis", "cancel", "ones", "tiny", "random", "random", "nan"):
             try:
                 bad, _ = probe(fn, shp, dt, rng, fld, mode)
             except Exception as e:  # noqa: BLE001
@@ -248,6 +263,7 @@ def generate(ctx):
     per_class = PER_CLASS_QUICK
     nb = NBUCKETS_THOROUGH if ctx.thorough else NBUCKETS_QUICK
     known = {KNOWN_CROP} if ctx.is_known(KNOWN_CROP) else set()
+    ops.KNOWN_IDS = {k for k in (KNOWN_SUM,) if ctx.is_known(k)}
     probe_time = [0.0]
 
     def on_view(rec, A, fn, shp, dt):
@@ -268,9 +284,44 @@ def generate(ctx):
             rec["probe"] = {"raised": repr(e)[:200]}
         probe_time[0] += time.time() - t
 
-    records, programs, mods, index, stats = tr.generate(ctx.rng, ctx.thorough, per_class, nb, ctx.hist, known, on_view)
+    instances = {}
+    fid_time = [0.0]
+    fid_seen = set()
+
+    def on_program(rec, prog, fn, shp, dt):
+        """translator fidelity: the emitted IR, executed equation by equation with the real JAX primitives
+        (jaxpr_table.ir_eval), must compute what the operator computes.  Every program that went through unrolled
+        control flow / a pmap / a baked gather, the first user of a seeded share of the other programs."""
+        import time
+
+        import jaxpr_table as tb
+
+        special = prog.unrolled > 0 or any(p.split("#")[0] in (ir.PMAP_IN, ir.PMAP_OUT, "gather[fill]", ir.SCAN_INDEX) for p in prog.prims)
+        key = prog.key()
+        if key in fid_seen:
+            return
+        if not special and ctx.rng.random() > (FIDELITY_SHARE_THOROUGH if ctx.thorough else FIDELITY_SHARE_QUICK):
+            return
+        fid_seen.add(key)
+        t = time.time()
+        try:
+            x = [_rand_leaf(ctx.rng, s, dt, "random") for s in ops.leaf_shapes(shp)]
+            ref = _apply(fn, shp, x)
+            got = [np.asarray(v) for v in tb.ir_eval(prog, x)]
+            d = _lin_defect(got, ref)
+            tol = max(_tol(dt), _tol(ref[0].dtype) if ref and ref[0].size else 0.0)
+            rec["fidelity"] = {"defect": d, "tol": tol, "neqns": len(prog.eqns), "special": special, "folded": prog.folded, "inlined": prog.inlined,
+                               "unrolled": prog.unrolled, "nontrivial": any(np.any(np.asarray(p) != 0) for p in ref)}
+        except Exception as e:  # noqa: BLE001
+            rec["fidelity"] = {"raised": repr(e)[:300]}
+        fid_time[0] += time.time() - t
+
+    records, programs, mods, index, stats = tr.generate(ctx.rng, ctx.thorough, per_class, nb, ctx.hist, known, on_view, instances, on_program)
+    stats["fidelity_s"] = round(fid_time[0], 1)
+    stats["primitive_instances"] = len(instances)
+    _STATE["instances"] = instances
     stats["probe_s"] = round(probe_time[0], 1)
-    stats["trace_s"] = round(stats["trace_s"] - probe_time[0], 1)
+    stats["trace_s"] = round(stats["trace_s"] - probe_time[0] - fid_time[0], 1)
     _STATE.update(records=records, programs=programs, mods=mods, index=index)
     ctx.extra["translator"] = stats
     ctx.extra["primitive_table"] = {k: v for k, v in sorted(ir.prim_table().items(), key=lambda kv: kv[1]) if any(k in e["prog"].prims for e in programs.values())}
@@ -320,7 +371,10 @@ def _corpus(ctx, oracle):
             raise common.Infra(f"corpus case {f.name}: {e!r}") from e
         ctx.case({"corpus": f.name, "cls": case["cls"], "view": case["view"]}, ("corpus", f.name))
         if kind in ("linear", "rejected-or-linear") and bad is not None:
-            ctx.disagree("linearity.corpus", case, bad.get("what"), "linear", oracle=lambda c, _b=bad: _b)
+            if case.get("known_id") and ctx.is_known(case["known_id"]) and "raised" not in bad:
+                ctx.known_finding(case["known_id"], True, detail=f"corpus/C06/{f.name}: {bad.get('what')}")
+            else:
+                ctx.disagree("linearity.corpus", case, bad.get("what"), "linear", oracle=lambda c, _b=bad: _b)
         if kind == "nonlinear-known":
             if bad is None or "raised" in bad:
                 ctx.count(f"corpus-known-no-longer-fails:{f.name}")
@@ -520,6 +574,11 @@ def _jax_blocks():
         "rfft_irfft": lambda x: x if jnp.iscomplexobj(x) else jnp.fft.irfft(c3[:4] * jnp.fft.rfft(x), n=6),
         "take_dup": lambda x: jnp.take(x, idx[::-1]) - x,
         "tril_matmul": lambda x: jnp.tril(jnp.ones((6, 6), x.dtype)) @ x,
+        "take_inbounds": lambda x: jnp.take(x, idx) + x.at[idx].get(mode="fill", fill_value=1.0),
+        "fori": lambda x: jax.lax.fori_loop(0, 3, lambda i, v: v - jnp.roll(v, 1) * (i + 1.0), x),
+        "while_const": lambda x: jax.lax.fori_loop(0, jnp.asarray(2), lambda i, v: v + v[::-1], x),
+        "scan": lambda x: jax.lax.scan(lambda c, xi: (c + 2 * xi, c - xi), jnp.zeros((), x.dtype), x)[1],
+        "cond_const": lambda x: jax.lax.cond(c3[0] > 0, lambda v: 2 * v, lambda v: v + 1, x),
     }
     nonlin = {
         "abs": lambda x: jnp.abs(x).astype(x.dtype),
@@ -536,6 +595,12 @@ def _jax_blocks():
         "sortidx": lambda x: jnp.sort(x.real).astype(x.dtype),
         "max_reduce": lambda x: x - jnp.max(x.real),
         "sign_mul": lambda x: jnp.sign(x.real) * x,
+        "take_oob_nan": lambda x: jnp.take(x, idx + 3),  # out-of-bounds entries are filled with NaN: A(0) != 0
+        "get_fill_one": lambda x: x.at[idx + 3].get(mode="fill", fill_value=1.0),
+        "cond_const_affine": lambda x: jax.lax.cond(c3[0] < 0, lambda v: 2 * v, lambda v: v + 1, x),
+        "cond_data": lambda x: jax.lax.cond(x[0].real > 0, lambda v: 2 * v, lambda v: 3 * v, x),
+        "fori_affine": lambda x: jax.lax.fori_loop(0, 3, lambda i, v: v + i, x),
+        "div_zero_const": lambda x: x / (c3 - 0.5),  # a zero in the constant denominator: 0 / 0 = NaN at x = 0
     }
     return lin, nonlin
 
@@ -588,6 +653,95 @@ def _synthetic_jax(ctx, model):
                          note="a composition of linear building blocks is rejected by the checker")
 
 
+def _fidelity(ctx):
+    """7. translator fidelity (measured during generation): IR executed with the real primitives == the operator"""
+    for r in _STATE.get("records", []):
+        f = r.get("fidelity")
+        if f is None:
+            continue
+        case = {"cls": r["cls"], "config": r["config"], "view": r["view"]}
+        if "raised" in f:
+            ctx.count("fidelity-raised")
+            ctx.disagree("jaxpr.translate.fidelity", case, f["raised"], "IR not executable", note="the translated program could not be executed with the recorded primitive instances")
+            continue
+        ctx.count("fidelity:" + ("control-flow/pmap/baked" if f["special"] else "plain"))
+        ctx.count("fidelity-eqns:" + ("<=10" if f["neqns"] <= 10 else "<=40" if f["neqns"] <= 40 else "<=100" if f["neqns"] <= 100 else ">100"))
+        ctx.case({"fidelity": f"{r['cls']}.{r['view']}", "neqns": f["neqns"], "folded": f["folded"], "inlined": f["inlined"], "unrolled": f["unrolled"], "defect": f["defect"]},
+                 ("fid",) + _key(r) if f["nontrivial"] else None, sample_every=29)
+        if not f["defect"] <= 8 * f["tol"]:
+            ctx.disagree("jaxpr.translate.fidelity", case, f"defect {f['defect']}", "IR == operator",
+                         note="the translated program (inlining / constant folding / unrolling) does not compute what the operator computes")
+
+
+# --- the trusted primitive table, entry by entry (harness/jaxpr_table.py) -----------------------------------------
+
+TABLE_INSITU_QUICK = 220
+
+
+def _table_validation(ctx):
+    """6. every entry of the class table tested numerically on the JAX primitive itself:
+       (a) negative controls - falsified entries must be reported (self-test), (b) coverage functions with adversarial
+       static parameters, (c) the primitive instances of the operator programs translated in this run (in situ)."""
+    import jaxpr_table as tb
+
+    rng = ctx.rng
+    for label, inst in tb.negative_controls():
+        st, _ = tb.validate(inst, rng)
+        ctx.count("table-negative-control:" + ("detected" if st == "defect" else "MISSED"))
+        ctx.case({"table_negative_control": label, "result": st}, ("tneg", label), sample_every=7)
+        if st != "defect":
+            raise common.Infra(f"table validation stream does not detect the falsified entry '{label}' ({st})")
+    seen = set()
+
+    def one(source, label, inst):
+        sig = tb.signature(inst)
+        if (source, sig) in seen:
+            return
+        seen.add((source, sig))
+        st, d = tb.validate(inst, rng)
+        ctx.count(f"table-{source}:{st}")
+        if st == "ok":
+            ctx.count(f"table-entry-validated:{inst['name'].split('#')[0]}")
+        desc = {"table_entry": inst["name"], "class": inst["cls"], "source": source, "from": label, "result": st}
+        ctx.case(desc, ("tbl", source, repr(sig)) if st == "ok" else None, sample_every=41)
+        if st == "defect":
+            ctx.disagree("jaxpr.table.entry", {**tb.describe(inst), "from": label, "source": source}, d, f"class {inst['cls']}",
+                         note="the class table claims this primitive instance has the class property (Interp.Sound); numerically it does not")
+
+    cov, nt = tb.coverage_instances()
+    for label, e in nt:
+        raise common.Infra(f"table coverage function '{label}' is not translatable: {e}")
+    for label, inst in cov:
+        one("coverage", label, inst)
+    reached = {i["name"].split("#")[0] for _, i in cov}
+    have = tb.jax_primitive_names()
+    ctx.extra["table_entries_not_reached_by_coverage"] = sorted(n for n in tb.table_entries() if n not in reached and (not have or n in have or "[" in n))
+    insts = list(_STATE.get("instances", {}).values())
+    lin = [i for i in insts if i["cls"] in tb.LINEAR_CLASSES]
+    ctx.count("table-insitu-instances-recorded", len(lin))
+    if not ctx.thorough and len(lin) > TABLE_INSITU_QUICK:
+        # round robin over primitive names (rare names first), seeded order inside a name
+        by = {}
+        for i in lin:
+            by.setdefault(i["name"], []).append(i)
+        for v in by.values():
+            rng.shuffle(v)
+        order, k = [], 0
+        names = sorted(by, key=lambda n: (len(by[n]), n))
+        while len(order) < TABLE_INSITU_QUICK:
+            took = False
+            for n in names:
+                if k < len(by[n]) and len(order) < TABLE_INSITU_QUICK:
+                    order.append(by[n][k])
+                    took = True
+            if not took:
+                break
+            k += 1
+        lin = order
+    for inst in lin:
+        one("insitu", inst.get("user", "?"), inst)
+
+
 def correspond(ctx, model):
     common.setup_scico()
     import warnings
@@ -599,7 +753,7 @@ def correspond(ctx, model):
     timing = ctx.extra.setdefault("timing_s", {})
     for name, fn in (("corpus", lambda: _corpus(ctx, oracle)), ("mirror_vs_lean", lambda: _mirror_vs_lean(ctx, model)),
                      ("probes", lambda: _probes(ctx, ctx.rng)), ("synthetic_scalar", lambda: _synthetic_scalar(ctx, model)),
-                     ("synthetic_jax", lambda: _synthetic_jax(ctx, model))):
+                     ("synthetic_jax", lambda: _synthetic_jax(ctx, model)), ("table_validation", lambda: _table_validation(ctx)), ("fidelity", lambda: _fidelity(ctx))):
         t = time.time()
         fn()
         timing[name] = round(time.time() - t, 1)
@@ -641,9 +795,17 @@ def _jacobian_affine():
     return bool(any(np.any(np.asarray(b) != 0) for b in ops.unpack(y)))
 
 
+def _sum_initial_affine():
+    import jax.numpy as jnp
+    from scico import linop
+
+    A = linop.Sum((3,), input_dtype=np.float64, initial=1.0)
+    return bool(np.any(np.asarray(A(jnp.zeros((3,), np.float64))) != 0))
+
+
 def findings(ctx, model):
     common.setup_scico()
-    for fid, fn in ((KNOWN_CROP, _crop_not_traceable), (KNOWN_PAD, _pad_nonlinear), (KNOWN_JAC, _jacobian_affine)):
+    for fid, fn in ((KNOWN_CROP, _crop_not_traceable), (KNOWN_PAD, _pad_nonlinear), (KNOWN_JAC, _jacobian_affine), (KNOWN_SUM, _sum_initial_affine)):
         if ctx.is_known(fid):
             try:
                 still = fn()
@@ -715,7 +877,7 @@ def replay(ctx, model, case):
         z = [(a * p + b * q).astype(dt) for p, q in zip(x, y)]
         lhs = _apply(fn, shp, z)
         rhs = [a * p + b * q for p, q in zip(_apply(fn, shp, x), _apply(fn, shp, y))]
-        d = _lin_defect(lhs, rhs)
+        d = _lin_defect(lhs, rhs, nan_ok=(c.get("mode") == "nan"), relative=(c.get("mode") == "tiny"))
         fails = d > 8 * _tol(dt)
         print("replay:", "property FAILS on implementation" if fails else "no failure at this input", {"defect": d})
         if fails:
